@@ -68,6 +68,11 @@ MCSeq_hist4 == SeqsUpTo(QuickHistoryRows \cup {Row3(G1(1), HET, HET)}, 4)
 \* records WITHOUT the GT key (FORMAT = DP) between ordinary ones, at every position of the history
 NoGtRow == [gt |-> Row3(HET, HOM1, HET).gt, bad |-> FALSE, fmt |-> "nogt"]
 MCSeq_fmt == SeqsUpTo({Row3(HET, HOM1, HET), Row3(HOM0, HET, HOM1), NoGtRow, Row3(MISS, HOM1, HET)}, 3)
+\* records with the SAME allele counts per population but different numbers of called chromosomes, distributed differently over
+\* the populations (and one complete record): whatever is remembered from one projected record must not be reused for the next
+CacheRows == {Row3(MISS, HET, HOM0), Row3(HET, HOM0, MISS), Row3(HOM0, HET, MISS), Row3(HET, MISS, HOM0), Row3(HET, HOM0, HOM0)}
+MCSeq_cache == SeqsUpTo(CacheRows, 3)
+ListsTwoPop == {<<E("s1", "A"), E("s10", "A"), E("s2", "B")>>, <<E("s1", "A"), E("s10", "B"), E("s2", "B")>>}
 MCSeq_nofault3 == SeqsUpTo(HistoryRows, 3)
 MCSeq_nofault2 == SeqsUpTo(HistoryRows, 2)
 
